@@ -15,8 +15,10 @@ import time
 
 prop, mut = sys.argv[1], sys.argv[2]
 skip_tests = '--skip-tests' in sys.argv
-src = f'/tmp/wt/{prop}/_seed/{mut}'
-sid = f'{prop}-{mut}'
+root = os.environ.get('SEED_ROOT', '/tmp/wt')
+tag = os.environ.get('SEED_TAG', '')
+src = f'{root}/{prop}/_seed/{mut}'
+sid = f'{prop}-{tag}{mut}'
 dst = f'/verif/seeded/{sid}'
 wt = f'/dev/shm/seedwt/{sid}'
 os.makedirs('/dev/shm/seedwt', exist_ok=True)
